@@ -55,7 +55,7 @@ var propScopeKeep = map[string][]string{
 	"C06": {"R-lex-parse-filename"},
 	"C16": {"R-twin-tables"},
 	"C09": {"R-members"},
-	"C20": {"R-optable-symbol"},
+	"C20": {"R-optable-symbol", "R-mangle-unique"},
 }
 
 // outOfScope reports whether obligation o is anchored in a package that cannot affect property prop.
